@@ -433,6 +433,39 @@ func scenIndividualLimit(start int64) *scenario {
 	return s
 }
 
+// structured address families: many new accounts created in one block whose addresses agree in their leading
+// or in their trailing bytes (anything that orders, hashes or truncates keys sees ties and near-ties)
+func scenVanityBurst(start int64) *scenario {
+	s := &scenario{name: "vanity-burst", start: start}
+	s.step = func(sc *scenCtx, rel int64) {
+		if rel != 0 && rel != 2 && rel != 5 {
+			return
+		}
+		k := reservedKey(sc.hr, 5)
+		if k == nil {
+			return
+		}
+		fam := sha256sum([]byte(fmt.Sprint("vanity", sc.hr.G.G.ChainID, rel)))
+		for j := 0; j < 10; j++ {
+			a := make([]byte, 20)
+			v := sha256sum([]byte(fmt.Sprint("member", rel, j)))
+			if rel == 2 {
+				copy(a, fam[:12]) // common prefix
+				copy(a[12:], v[:8])
+			} else {
+				copy(a, v[:12])
+				copy(a[12:], fam[:8]) // common suffix
+				if rel == 5 {
+					copy(a[4:], fam[8:24]) // only four leading bytes differ
+				}
+			}
+			sc.add(k, rctypes.TRX_TRANSFER, a, big.NewInt(int64(1000+j)), nil, "vanity-transfer", nil)
+		}
+		sc.hr.C.Count("scenario.vanity-burst", 1)
+	}
+	return s
+}
+
 // a single-field governance change (proposed, voted by everybody, applied) in the middle of a history
 func scenParamChange(start int64, field string) *scenario {
 	s := &scenario{name: "param-change:" + field, start: start, state: map[string]interface{}{}}
